@@ -344,3 +344,33 @@ def run(ctx):
     outs = ctx.driver.run(["gather v1,e7,e9", "gather v1,v2,v3", "gather e4,v1"])
     if outs != ["err 7", "ok 1,2,3", "err 4"]:
         ctx.violation("correspondence-break", "gather model sanity", {"model": outs})
+
+    # ---------------- documented argument errors of the helpers: each surfaces as the exception the code names, none
+    # returns a value (these are the error branches the runs above never enter)
+    if ctx.replay is None:
+        from fast_ticc import matrix_compression as mc
+        from fast_ticc.admm import solver, unique_values as uv
+        probes = [
+            ("sparsity weight of an unsupported type", ValueError,
+             lambda: solver.compute_lambda_sum("0.1", 0, 0, 0, 2, 2)),
+            ("compressing a non-square matrix", RuntimeError, lambda: mc.compress_matrix(np.zeros((2, 3)))),
+            # (with a window size <= 0 every block id is out of range, so the IndexError branch comes first; the
+            # ValueError branch for the window size is unreachable — either exception is a surfaced failure)
+            ("window size 0 in the class-location helper", (IndexError, ValueError), lambda: uv.locations_index_slices(0, 0, 0, 2, 0)),
+            ("sensor count 0 in the class-location helper", ValueError, lambda: uv.locations_index_slices(0, 0, 0, 0, 3)),
+            ("block id beyond the window", IndexError, lambda: uv.locations_index_slices(5, 0, 0, 2, 3)),
+        ]
+        for what, exc, fn in probes:
+            try:
+                out = fn()
+                ctx.violation("impl-violation", f"{what}: returned {type(out).__name__} instead of raising {getattr(exc, '__name__', exc)}",
+                              {"probe": what}, {"site": "argument-error"})
+            except exc:
+                ctx.count("argument_errors_surfaced")
+            except (TypeError, AttributeError) as e:
+                # a refactoring may have changed a private signature: not a finding, note it
+                ctx.notes.append(f"argument-error probe '{what}' not applicable: {type(e).__name__}")
+            except Exception as e:
+                ctx.violation("impl-violation", f"{what}: raised {type(e).__name__} ({str(e)[:60]}) instead of {getattr(exc, '__name__', exc)}",
+                              {"probe": what}, {"site": "argument-error"})
+            ctx.case(("probe", what), nontrivial=True)
